@@ -20,7 +20,9 @@ CONSTANTS MaxEntries,   \* configurations of 1..MaxEntries entries are enumerate
 
 -----------------------------------------------------------------------------
 \* Part 1: start-up
-KeyClasses == {"ok", "bad"}
+\* "stalehash": a key string whose name and key-hash field are those of ANOTHER entry's key while its key bytes are different
+\* (config.NewLog / AsLogMap must decode and check every entry's key for itself)
+KeyClasses == {"ok", "bad", "stalehash"}
 FeederClasses == {"sumdb", "tiles", "serverless", "pixel", "rekor", "none", "unknown"}
 UrlClasses == {"ok", "malformed", "badscheme", "notreeid"}
 
@@ -41,7 +43,7 @@ SInit == /\ Entries \in UNION {[1..k -> EntrySet] : k \in 1..MaxEntries}
 NewLog ==
     /\ sphase = "logs"
     /\ IF widx > Len(Entries) THEN sphase' = "map" /\ widx' = 1
-       ELSE IF Entries[widx].key = "bad" \/ Entries[widx].feeder = "unknown" THEN sphase' = "failed" /\ widx' = widx
+       ELSE IF Entries[widx].key \in {"bad", "stalehash"} \/ Entries[widx].feeder = "unknown" THEN sphase' = "failed" /\ widx' = widx
        ELSE sphase' = "logs" /\ widx' = widx + 1
     /\ UNCHANGED <<witmap, feeders>>
 
